@@ -199,6 +199,30 @@ def generate(rng, n, tier="quick"):
         c["id"] = "C18-thmh%04d" % k
         out.append((c, {"name": nm, "line": line, "col": col, "reason": "HelperNotFound", "tag": "{{" + hname + " 1}}", "where": "thm", "chain": False, "written": L,
                         "payload": hname}))
+    # the family of the Lean theorem C18.error_in_partial_names_the_partial: the failing tag {{x}} is the whole text of a PARTIAL (any
+    # partial name, any identifier x), called from L ++ {{> name}} ++ R in mid-line: the error names the partial, points at 1:1 of
+    # the partial's source, and exactly L was written
+    from .C03 import _no_open, rand_text
+    for k in range(max(20, n // 10)):
+        r = rng.fork("thmp%d" % k)
+        L = _no_open(rand_text(r, r.range(0, 8)))
+        while L and (L[-1] in " \t" or L.endswith("\\") or L.endswith("{")):
+            L = L[:-1]
+        R = _no_open(rand_text(r, r.range(0, 8)))
+        lt = L.rstrip(" \t")
+        rt = R.lstrip(" \t")
+        if not ((lt != "" and lt[-1] not in "\n\r") or (rt != "" and rt[0] not in "\n\r")):
+            L = L + "x"
+        from .C02 import ident_name
+        x = ident_name(r)
+        if x == "w":
+            x = "k"
+        pname = r.pick(["p", "dir/name.hbs", "\u00e9-1", "a.b", "x_y", "0"])
+        nm = r.pick(["main", "dir/t.hbs", "\u00e9"])
+        c = session({"strict": True, "escape": "none"}, [(pname, "{{%s}}" % x), (nm, L + "{{> %s}}" % pname + R)], {"api": "render_to_write", "name": nm}, {"w": 1})
+        c["id"] = "C18-thmp%04d" % k
+        out.append((c, {"name": pname, "line": 1, "col": 1, "reason": "MissingVariable", "tag": "{{%s}} in partial %s" % (x, pname), "where": "thm", "chain": False,
+                        "written": L, "payload": x}))
     # compile errors: name and a position inside the source
     for k, (src, reason) in enumerate([("a\n{{#if x}}", "InvalidSyntax"), ("{{#if x}}\n{{/each}}", "MismatchingClosedHelper"),
                                        ("é\n {{foo 1.}}", "InvalidParam"), ("{{#*inline \"a\"}}{{/x}}", "MismatchingClosedDecorator")]):
